@@ -30,6 +30,7 @@ type Report struct {
 	Configs   []string
 	Funcs     int
 	Notes     []string
+	SelfTest  []selfResult
 	minCounts map[string]int
 	cur       string // current config name
 	seenKey   map[string]bool
@@ -226,6 +227,27 @@ func (r *Report) Finish(verifDir string, explanation string, notDecided []string
 		"assumptions": assumptions,
 		"wall_s":      time.Since(r.Start).Seconds(),
 		"violations":  nViol + nUnd,
+	}
+	if len(r.SelfTest) > 0 {
+		okN, missN, faN, skipN := 0, 0, 0, 0
+		for _, s := range r.SelfTest {
+			switch {
+			case strings.HasPrefix(s.Outcome, "ok"):
+				okN++
+			case strings.HasPrefix(s.Outcome, "MISS"):
+				missN++
+				fmt.Printf("SELFTEST-MISS %s: %s\n", s.ID, s.Outcome)
+			case strings.HasPrefix(s.Outcome, "FALSE-ALARM"):
+				faN++
+				fmt.Printf("SELFTEST-FALSE-ALARM %s: rules %v\n", s.ID, s.Rules)
+			default:
+				skipN++
+			}
+		}
+		fmt.Printf("  self-test: %d variants of the repository analysed (mutants reported / benign edits silent: %d, missed: %d, false alarms: %d, skipped: %d)\n", len(r.SelfTest), okN, missN, faN, skipN)
+		cov := ev["coverage"].(map[string]interface{})
+		cov["selftest"] = r.SelfTest
+		cov["selftest_summary"] = map[string]int{"variants": len(r.SelfTest), "as_expected": okN, "missed": missN, "false_alarms": faN, "skipped": skipN}
 	}
 	os.MkdirAll(filepath.Join(verifDir, "evidence", "replay"), 0o755)
 	b, _ := json.MarshalIndent(ev, "", " ")
